@@ -1,0 +1,18 @@
+//go:build verif
+
+// Contracts for the deductive verifier under /verif (comment-only file).
+package alg
+
+//@ pure func isSpace(c byte) bool = c == 0x20 || c == 0x09 || c == 0x0d || c == 0x0a
+
+// Valid: the Go wrapper adds exactly the "one value, then only white space"
+// rule to what the native validating scanner reports (C02); positions are
+// inside the input (C07).
+//@ func Valid props C02,C04
+//@   ensures ok <==> (len(data) > 0 && native.scanRet(string(data), 0) >= 0 && (forall k int :: native.scanEnd(string(data), 0) <= k && k < len(data) ==> isSpace(data[k])))
+//@   ensures ok ==> start == native.scanRet(string(data), 0)
+//@   ensures[C07] -1 <= start && start < len(data) || (len(data) == 0 && start == -1)
+//@   loop 0: invariant native.scanRet(string(data), 0) >= 0 && ret == native.scanRet(string(data), 0) && n == len(data)
+//@   loop 0: invariant native.scanEnd(string(data), 0) <= p && p <= n
+//@   loop 0: invariant forall k int :: native.scanEnd(string(data), 0) <= k && k < p ==> isSpace(data[k])
+//@   loop 0: decreases n - p
